@@ -5,6 +5,7 @@ import os
 import time
 
 import c01
+import corpus
 import vlib
 
 IDCFG = """INIT IdInit
@@ -124,10 +125,11 @@ def run(tier):
     obs = vlib.run_harness("reporttree", cases, "c12", timeout=3000)
     by = {c["id"]: c for c in cases}
     lines = []
+    failed = []
     stats = {"results": 0, "maxdepth": 0, "nodes": 0, "with_location": 0}
     for o in obs:
         if o.get("err"):
-            V.disagree("validation failed: %s" % o["err"][:60], {"case": by[o["id"]], "error": o["err"]})
+            failed.append(o)         # no report, nothing for C12 to say (whether it should have compiled is C07's business)
             continue
         if o.get("report") is None:
             V.disagree("report is not a valid document: %s" % o["valid"][:60], {"case": by[o["id"]], "valid": o["valid"]})
@@ -135,6 +137,9 @@ def run(tier):
         lines.append({"id": o["id"], "valid": o["valid"], "report": o["report"], "instanceIds": o["instanceIds"],
                       "graphIds": o["graphIds"], "validations": o["validations"]})
         measure(o["report"], stats, 0)
+    if len(failed) > len(obs) // 3:
+        raise vlib.Infra("%d of %d validations returned an error instead of a report: %s" % (len(failed), len(obs), failed[0]["err"][:300]))
+    lines.extend(cli_reports(V))
     tdir = os.path.join(vlib.BUILD, "traces")
     os.makedirs(tdir, exist_ok=True)
     chunks = [lines[i::8] for i in range(8) if lines[i::8]]
@@ -157,6 +162,9 @@ def run(tier):
             rejected.extend(rej)
     oby = {o["id"]: o for o in obs}
     for rid in sorted(rejected):
+        if rid.startswith("cli-"):
+            V.disagree("malformed report written by the command line tool", {"case": rid, "inputs": CLI_INPUTS[rid.split("-")[1]]})
+            continue
         V.disagree("malformed report (%s)" % diagnose(oby[rid]), {"case": by[rid], "report": oby[rid]["report"]})
     selftest(lines, tdir)
     rc = V.finish()
@@ -169,15 +177,90 @@ def run(tier):
                 "with/without locations; %d shapes in this run); %d real reports from profiles built for several traces per "
                 "result (or-branches), several sub-results per trace (nested over failing children x inner branches), nesting "
                 "depth 1..4, three severities, with/without lexical locations, projected to trees and validated by TLC "
-                "(ReportTrace: every @id equals its positional id and is unique in the document, focus nodes are graph node "
-                "ids, names, messages, traces, component/resultPath present); non-trivial = report with results"
+                "(ReportTrace: every typed node has an @id, all @ids of the document are pairwise distinct, focus nodes are "
+                "graph node ids, names are defined validations or `nested`, messages and traces non-empty, component/resultPath present); non-trivial = report with results"
                 % (sum(r.distinct for r in rs), len(lines)),
-        "report_stats": stats,
+        "report_stats": stats, "validations_without_report": len(failed),
         "samples": [{"id": ln["id"], "result_ids": [r["id"] for r in ln["report"]["arrays"].get("result", [])][:6]} for ln in lines[:4]],
         "checker_cmd": trs[0].cmd if trs else "", "negative_control": "a node kind with two array slots -> colliding ids",
         "known_findings_hit": sorted(V.known_hits),
     }, time.time() - t0, violations=len(V.violations))
     return rc
+
+
+KINDS = [("ValidationResultNode", "result"), ("TraceMessageNode", "trace"), ("TraceValueNode", "traceValue"),
+         ("LocationNode", "location"), ("RangeNode", "range"), ("PositionNode", "position"), ("ReportNode", "report")]
+CLI_INPUTS = {
+    "percent": (corpus.OK_PROFILE.replace("p is required", "100% of p is required %s %d %v %!"),
+                json.dumps([corpus.node(1, q="a%sb"), {"@id": "http://example.org/my%20node%n2", "@type": [corpus.EX + "T"]},
+                            corpus.node(3, p="x", q="%d%d%d%d")])),
+    "plain": (corpus.OK_PROFILE_NESTED, corpus.OK_DOCS[2]),
+}
+
+
+def project(m):
+    """the same projection as harness/cmd/acvh/reporttree.go projectTree, for report texts produced outside the harness"""
+    n = {"id": m.get("@id", "") if isinstance(m.get("@id", ""), str) else "", "kind": "untyped", "scalars": {}, "maps": {}, "arrays": {}}
+    for t in m.get("@type", []) if isinstance(m.get("@type"), list) else []:
+        for suffix, kind in KINDS:
+            if isinstance(t, str) and t.endswith(suffix) and n["kind"] == "untyped":
+                n["kind"] = kind
+    mixed = []
+    for k, v in m.items():
+        if k in ("@id", "@type"):
+            continue
+        if isinstance(v, dict):
+            n["maps"][k], mx = project(v)
+            mixed += mx
+        elif isinstance(v, list) and v and any(isinstance(e, dict) for e in v):
+            if not all(isinstance(e, dict) for e in v):
+                mixed.append(k)
+                n["scalars"][k] = json.dumps(v)
+                continue
+            n["arrays"][k] = []
+            for e in v:
+                t, mx = project(e)
+                n["arrays"][k].append(t)
+                mixed += mx
+        else:
+            n["scalars"][k] = v if isinstance(v, str) else ("null" if v is None else json.dumps(v))
+    return n, mixed
+
+
+def cli_reports(V):
+    """the reports `acv validate` prints and writes are reports too: project them like the library's"""
+    import subprocess
+    acv = vlib.build_cli()
+    d = os.path.join(vlib.BUILD, "c12cli")
+    os.makedirs(d, exist_ok=True)
+    out = []
+    for name, (prof, data) in sorted(CLI_INPUTS.items()):
+        pf, df, of = os.path.join(d, name + ".yaml"), os.path.join(d, name + ".jsonld"), os.path.join(d, name + ".out.json")
+        open(pf, "w").write(prof)
+        open(df, "w").write(data)
+        if os.path.exists(of):
+            os.remove(of)
+        p1 = subprocess.run([acv, "validate", pf, df], capture_output=True, timeout=120)
+        p2 = subprocess.run([acv, "validate", pf, df, of], capture_output=True, timeout=120)
+        if p1.returncode != 0 or p2.returncode != 0:
+            raise vlib.Infra("acv validate fails on a valid pair: %s" % (p1.stderr or p2.stderr)[-300:])
+        graph = [g["@id"] for g in json.loads(data)] if name == "percent" else ["http://example.org/n1", "http://example.org/n2", "http://example.org/n3"]
+        for how, text in (("stdout", p1.stdout.decode(errors="replace")), ("file", open(of, errors="replace").read())):
+            line = {"id": "cli-%s-%s" % (name, how), "valid": "", "instanceIds": [], "graphIds": graph, "validations": ["v1", "w1"],
+                    "report": {"id": "x", "kind": "report", "scalars": {}, "maps": {}, "arrays": {}}}
+            try:
+                doc = json.loads(text)
+                root = doc[0]["doc:encodes"][0]
+                if len(doc) != 1 or len(doc[0]["doc:encodes"]) != 1:
+                    line["valid"] = "not exactly one instance / node"
+                line["instanceIds"] = [doc[0].get("@id", "")] + [x.get("@id", "") for x in doc[0].get("doc:processingData", []) if isinstance(x, dict)]
+                line["report"], mixed = project(root)
+                if mixed:
+                    line["valid"] = "a list of nodes holds an entry that is not a node"
+            except Exception as ex:        # not a JSON document of the expected outline
+                line["valid"] = "not a JSON report: %s" % str(ex)[:80]
+            out.append(line)
+    return out
 
 
 def measure(node, stats, depth):
